@@ -719,11 +719,8 @@ void File::uncompressedFile2ReadWriteQueue() {
         return;
     }
 
-    int32_t tmp = 0;
-    if (obj->calculateObjectSize() > ohb.objectSize) {
-        // we are about to read too much data
-        tmp = ohb.objectSize - obj->calculateObjectSize();
-    }
+    /* where the object begins; its header says where it ends */
+    const std::streampos objectBegin = m_uncompressedFile.tellg();
 
     /* read object */
     obj->read(m_uncompressedFile);
@@ -732,8 +729,11 @@ void File::uncompressedFile2ReadWriteQueue() {
         throw Exception("File::uncompressedFile2ReadWriteQueue(): Read beyond end of file.");
     }
 
-    if (tmp!=0) {
-        m_uncompressedFile.seekg(tmp);
+    /* an object shorter than the layout read here was read beyond its end: go back to the declared end */
+    const std::streamoff readBeyond =
+        m_uncompressedFile.tellg() - (objectBegin + static_cast<std::streamoff>(ohb.objectSize));
+    if (readBeyond > 0) {
+        m_uncompressedFile.seekg(-readBeyond, std::ios_base::cur);
     }
 
     /* the object belongs to the reader once it is in the queue: look at it before */
